@@ -1,4 +1,5 @@
 import TvCore.Proofs.LinkFifo
+import TvCore.Proofs.LinkC03
 /-
   C14 — messages arrive within the configured latency window, in order on equal latency.
   Model: `TV.Link` (top.rs).  The delay is an oracle input; `delay_in_range` shows the code's clamp
@@ -100,17 +101,22 @@ theorem fstep_inv (cfg : Cfg) {s : FState M} (h : FInv s) (op : LinkOp M) : FInv
       · simpa [fstep] using finv_drainA h
       · simpa [fstep] using finv_drainB h
   | partition =>
-      exact finv_sublist h [] (List.nil_sublist _) .explicit .explicit (by decide) (by decide) true true
+      obtain ⟨_, _, es, e1, e2, _, _, sA, sB, _, en, _⟩ := explicitPartition_fields s.l
+      exact finv_sublist3 h _ (by rw [es]; exact List.nil_sublist _) sA sB en (by rw [e1]; decide) (by rw [e2]; decide)
   | partitionOneway ab =>
+      have key : ∀ p q : Nat, FInv { s with l := (s.l.partitionOneway p q).1 } := by
+        intro p q
+        obtain ⟨_, _, es, e1, e2, _, _, sA, sB, _, en, _⟩ := partitionOneway_fields s.l p q
+        refine finv_sublist3 h _ (by rw [es]; exact List.filter_sublist) sA sB en ?_ ?_
+        · rw [e1]; split
+          · decide
+          · exact h.nhAB
+        · rw [e2]; split
+          · exact h.nhBA
+          · decide
       cases ab
-      · simp only [fstep, Bool.false_eq_true, if_false, partitionOneway]
-        split
-        · exact finv_sublist h _ List.filter_sublist .explicit _ (by decide) h.nhBA true _
-        · exact finv_sublist h _ List.filter_sublist _ .explicit h.nhAB (by decide) _ true
-      · simp only [fstep, if_true, partitionOneway]
-        split
-        · exact finv_sublist h _ List.filter_sublist .explicit _ (by decide) h.nhBA true _
-        · exact finv_sublist h _ List.filter_sublist _ .explicit h.nhAB (by decide) _ true
+      · exact key _ _
+      · exact key _ _
   | repair =>
       exact finv_sublist h _ (List.Sublist.refl _) .healthy .healthy (by decide) (by decide) false false
   | repairOneway ab =>
@@ -142,6 +148,23 @@ theorem fifo (cfg : Cfg) (a b : Nat) (ops : List (LinkOp M)) (m1 m2 : Sent M)
           ∨ [m2, m1].Sublist ((frun cfg { l := Link.init a b } ops).outA ++ (frun cfg { l := Link.init a b } ops).l.toA))
     (hid : m1.id < m2.id) (hkey : key m1 ≤ key m2) : False := by
   have hinv := frun_inv cfg (finv_init a b) ops
+  rcases hsub with hsub | hsub
+  · have := (hinv.seqB.sublist hsub)
+    simp only [List.pairwise_cons, List.mem_singleton, forall_eq] at this
+    have := this.1 hid
+    omega
+  · have := (hinv.seqA.sublist hsub)
+    simp only [List.pairwise_cons, List.mem_singleton, forall_eq] at this
+    have := this.1 hid
+    omega
+
+/-- … the same for a link created under either variant of the ready-queue repair (`fixMatured`): with the
+    repair a partition also discards ready messages, which only removes elements from the sequences. -/
+theorem fifo_any_flag (cfg : Cfg) (a b : Nat) (fm : Bool) (ops : List (LinkOp M)) (m1 m2 : Sent M)
+    (hsub : [m2, m1].Sublist ((frun cfg { l := Link.init a b fm } ops).outB ++ (frun cfg { l := Link.init a b fm } ops).l.toB)
+          ∨ [m2, m1].Sublist ((frun cfg { l := Link.init a b fm } ops).outA ++ (frun cfg { l := Link.init a b fm } ops).l.toA))
+    (hid : m1.id < m2.id) (hkey : key m1 ≤ key m2) : False := by
+  have hinv := frun_inv cfg (finv_init a b fm) ops
   rcases hsub with hsub | hsub
   · have := (hinv.seqB.sublist hsub)
     simp only [List.pairwise_cons, List.mem_singleton, forall_eq] at this
